@@ -854,7 +854,8 @@ async fn run(sc: &DlScenario) -> Record {
             0 => {
                 flags.borrow_mut().drain = true;
                 hist.borrow_mut().marks.push((exec.steps, "drain".into()));
-                exec.wake_all();
+                // Only harness nodes are woken: a spurious poll of the runtime would hide a wake-up it lost.
+                exec.wake_all_except(&[rt_node]);
                 phase = 1;
             }
             1 => {
